@@ -35,7 +35,98 @@ def memo_key(r: R, chk, rule="MEMO-KEY", entries=None):
         chk.ob(rule, f"{fi.qual}: no value-keyed memoisation (`{seg(fi.node.decorator_list[0], 30) if fi.node.decorator_list else ''}`)", bad is None, loc=f"{fi.module}.py:{fi.node.lineno}",
                detail="" if bad is None else f"{fi.qual} is memoised with `@{bad}` on arguments that are numbers / tuples of numbers: the cache key compares with ==, so 1, 1.0 and Fraction(1) share an entry — the result for exact input depends on whether a float (or int) call came first, and exact input can come back as float",
                func=fi.qual, construct=f"memoised by value: @{bad}" if bad else "")
+    # hand-written tables: a module-level / class-level dict written under a key computed from number-valued parameters
+    for fi in r.prog.all_functions():
+        if fi.module == "__classes__" or (only is not None and fi.qual not in only):
+            continue
+        for st, table, key in _table_stores(r, fi):
+            free = _reaching_params(fi, key)
+            loose = sorted(p for p in free if not (isinstance(fi.annots.get(p), ast.Name) and fi.annots[p].id in ("int", "str", "bool")))
+            chk.ob(rule, f"{fi.qual}: the table `{table}` is keyed by small integers / names only", not loose, loc=f"{fi.module}.py:{st.lineno}",
+                   detail="" if not loose else f"{fi.qual} stores into the shared table `{table}` under `{seg(key, 50)}`, computed from {loose}: numbers and tuples of numbers compare with ==, so 1, 1.0 and Fraction(1) (and equal knot vectors of different number types) share an entry — the answer for exact input depends on which call came first, and exact input can come back as float",
+                   func=fi.qual, construct=f"table {table} keyed by value" if loose else "")
     return n
+
+
+def _is_dict_literal(v) -> bool:
+    return isinstance(v, ast.Dict) or (isinstance(v, ast.Call) and isinstance(v.func, ast.Name) and v.func.id in ("dict", "OrderedDict", "defaultdict"))
+
+
+def _table_stores(r: R, fi):
+    """(statement, table name, key expression) for every store into a module-level or class-level dict"""
+    from ..index import mangle
+
+    mod = r.prog.modules.get(fi.module)
+    mod_tables = set()
+    if mod is not None:
+        for st in mod.tree.body:
+            if isinstance(st, (ast.Assign, ast.AnnAssign)) and st.value is not None and _is_dict_literal(st.value):
+                for t in (st.targets if isinstance(st, ast.Assign) else [st.target]):
+                    if isinstance(t, ast.Name):
+                        mod_tables.add(t.id)
+    local = {t.id for a in ast.walk(fi.node) if isinstance(a, ast.Assign) for t in a.targets if isinstance(t, ast.Name)}
+    declared_global = {n for g in ast.walk(fi.node) if isinstance(g, ast.Global) for n in g.names}
+
+    def table_of(b):
+        if isinstance(b, ast.Name) and b.id in mod_tables and (b.id not in local or b.id in declared_global):
+            return b.id
+        if isinstance(b, ast.Attribute):
+            base = b.value
+            cn = None
+            if isinstance(base, ast.Name) and base.id in ("self", "cls"):
+                cn = fi.clsname
+            elif isinstance(base, ast.Name) and r.prog.classes.get(base.id) is not None:
+                cn = base.id
+            elif isinstance(base, ast.Call) and isinstance(base.func, ast.Name) and base.func.id == "type":
+                cn = fi.clsname
+            elif isinstance(base, ast.Attribute) and base.attr == "__class__":
+                cn = fi.clsname
+            if cn:
+                ci = r.prog.classes.get(cn)
+                m = mangle(fi.clsname, b.attr) if fi.clsname else b.attr
+                for cand in (m, mangle(cn, b.attr), b.attr):
+                    if ci is not None and cand in ci.attrs and _is_dict_literal(ci.attrs[cand]):
+                        return f"{cn}.{b.attr}"
+        return None
+
+    out = []
+    for n in ast.walk(fi.node):
+        if isinstance(n, ast.Subscript) and isinstance(n.ctx, ast.Store):
+            t = table_of(n.value)
+            if t:
+                out.append((n, t, n.slice))
+        elif isinstance(n, ast.Call) and isinstance(n.func, ast.Attribute) and n.func.attr == "setdefault" and n.args:
+            t = table_of(n.func.value)
+            if t:
+                out.append((n, t, n.args[0]))
+    return out
+
+
+def _reaching_params(fi, e) -> Set[str]:
+    """parameters the expression is computed from, through the local assignments of the function"""
+    defs: Dict[str, List[ast.expr]] = {}
+    for a in ast.walk(fi.node):
+        if isinstance(a, ast.Assign):
+            for t in a.targets:
+                for nm in ast.walk(t):
+                    if isinstance(nm, ast.Name):
+                        defs.setdefault(nm.id, []).append(a.value)
+        elif isinstance(a, (ast.AugAssign, ast.AnnAssign)) and isinstance(a.target, ast.Name) and a.value is not None:
+            defs.setdefault(a.target.id, []).append(a.value)
+        elif isinstance(a, (ast.For, ast.comprehension)):
+            for nm in ast.walk(a.target):
+                if isinstance(nm, ast.Name):
+                    defs.setdefault(nm.id, []).append(a.iter)
+    seen, work, out = set(), [e], set()
+    while work:
+        x = work.pop()
+        for nm in ast.walk(x):
+            if isinstance(nm, ast.Name) and nm.id not in seen:
+                seen.add(nm.id)
+                if nm.id in fi.params:
+                    out.add(nm.id)
+                work.extend(defs.get(nm.id, []))
+    return out
 
 
 # ------------------------------------------------------------------------------------------------
@@ -235,6 +326,25 @@ def both_mults(r: R, chk, qual: str, rule="BOTH-MULTS"):
         chk.ob(rule, f"{qual}: the multiplicities of `{who}` are consulted", ok, loc=r.loc(ctx, ctx.fi.node),
                detail="" if ok else f"{qual}: no `mult()` / `count()` is taken on `{who}`: its multiplicities cannot influence the result (only its distinct knots / degree do), so the per-knot minimum / maximum is wrong whenever `{who}` has the decisive multiplicity",
                func=qual, construct=f"multiplicities of {'self' if i == 0 else 'other'} not consulted")
+    # every return site: the value either is computed from both operands, or the path established that the operands are equal as
+    # whole vectors (`self == other`); equal distinct knots / equal degree / equal limits do not say anything about multiplicities
+    other = ctx.fi.params[1]
+    nret = 0
+    for node in ctx.cfg.nodes:
+        if not (isinstance(node.ast, ast.Return) and node.ast.value is not None and node.id in ctx.cfg.live_nodes()):
+            continue
+        nret += 1
+        v = ctx.val(node.ast.value)
+        have = v.all_dep() if v is not None else set()
+        miss = [w for w in (("P", 0), ("P", 1)) if not R.dep_has(have, w)]
+        facts = path_facts(ctx, node.id)
+        whole = {f"self == {other}", f"{other} == self", f"tuple(self) == tuple({other})", f"tuple({other}) == tuple(self)"}
+        eq = any(t in whole and pol for t, pol in facts)
+        ok = not miss or eq
+        chk.ob(rule, f"{qual}: `{seg(node.ast, 40)}` is computed from both operands (or returned where they are equal as whole vectors)", ok, loc=r.loc(ctx, node.ast),
+               detail="" if ok else f"{qual}: `{seg(node.ast, 50)}` does not depend on {r.fmt_deps(ctx.fi, miss)} and the tests on the way ({', '.join(sorted(t for t, pol in facts if pol)) or 'none'}) do not establish that the operands are equal as whole vectors: the multiplicities of {r.fmt_deps(ctx.fi, miss)} cannot influence the result on this path",
+               func=qual, construct=f"return ignores the multiplicities of {r.fmt_deps(ctx.fi, miss)}")
+    chk.floor(rule, f"return sites of {qual}", nret, 1)
 
 
 # ------------------------------------------------------------------------------------------------
@@ -1150,6 +1260,13 @@ def precond_lb(r: R, chk, quals: List[str], rule="PRECOND-LB"):
         for a in ast.walk(fi.node):
             if isinstance(a, ast.Assign) and len(a.targets) == 1 and isinstance(a.targets[0], ast.Name):
                 defs.setdefault(a.targets[0].id, []).append(a.value)
+        # a definition under a test of a name against a string (`if method == "..."`) holds for one callee only: not folded here (SIZE-DEFAULT does)
+        keyed = set()
+        for i_ in ast.walk(fi.node):
+            if isinstance(i_, ast.If) and any(isinstance(c_, ast.Constant) and isinstance(c_.value, str) for c_ in ast.walk(i_.test)):
+                for a in ast.walk(i_):
+                    if isinstance(a, ast.Assign) and len(a.targets) == 1 and isinstance(a.targets[0], ast.Name):
+                        keyed.add(a.targets[0].id)
         facts = []  # (expr text, lower bound expr) from asserts `len(x) >= e`
         for a in ast.walk(fi.node):
             t = a.test if isinstance(a, ast.Assert) else None
@@ -1189,8 +1306,8 @@ def precond_lb(r: R, chk, quals: List[str], rule="PRECOND-LB"):
                 ds = defs.get(e.id, [])
                 if e.id in ("olddegree", "newdegree", "degree"):
                     return 0
-                if not ds:
-                    return None  # handed in by the caller
+                if not ds or e.id in keyed:
+                    return None  # handed in by the caller / chosen per method
                 bs = [lb(d, depth + 1) for d in ds]
                 bs = [b for b in bs if b is not None]
                 return min(bs) if bs else None
@@ -1290,3 +1407,250 @@ def edges_establishing(ctx, fact):
                 if norm_fact(pp, q) == fact:
                     out.add((t.id, lab))
     return out
+
+
+# ------------------------------------------------------------------------------------------------
+# SIZE-DEFAULT: the number of nodes the integrators choose themselves is admissible and of sufficient order, method by method
+class _Unknown:
+    def __repr__(self):
+        return "?"
+
+
+UNK = _Unknown()
+
+
+def _ev(e, env, degree):
+    """constant folding of an integer / string expression; UNK when it cannot be folded"""
+    if isinstance(e, ast.Constant):
+        return e.value
+    if isinstance(e, ast.Name):
+        return env.get(e.id, UNK)
+    if isinstance(e, ast.Attribute) and e.attr == "degree":
+        return degree
+    if isinstance(e, ast.BinOp):
+        a, b = _ev(e.left, env, degree), _ev(e.right, env, degree)
+        if a is UNK or b is UNK or not isinstance(a, int) or not isinstance(b, int):
+            return UNK
+        try:
+            if isinstance(e.op, ast.Add):
+                return a + b
+            if isinstance(e.op, ast.Sub):
+                return a - b
+            if isinstance(e.op, ast.Mult):
+                return a * b
+            if isinstance(e.op, ast.FloorDiv):
+                return a // b
+            if isinstance(e.op, ast.Mod):
+                return a % b
+        except ZeroDivisionError:
+            return UNK
+        return UNK
+    if isinstance(e, ast.UnaryOp):
+        a = _ev(e.operand, env, degree)
+        if a is UNK:
+            return UNK
+        if isinstance(e.op, ast.Not):
+            return not a
+        if isinstance(e.op, ast.USub) and isinstance(a, int):
+            return -a
+        return UNK
+    if isinstance(e, ast.Call) and isinstance(e.func, ast.Name) and e.func.id in ("max", "min", "int") and e.args and not e.keywords:
+        vs = [_ev(a, env, degree) for a in e.args]
+        if any(v is UNK or not isinstance(v, int) for v in vs):
+            return UNK
+        return max(vs) if e.func.id == "max" else min(vs) if e.func.id == "min" else vs[0]
+    if isinstance(e, ast.IfExp):
+        t = _ev(e.test, env, degree)
+        if t is UNK:
+            a, b = _ev(e.body, env, degree), _ev(e.orelse, env, degree)
+            return a if a is not UNK and a == b else UNK
+        return _ev(e.body if t else e.orelse, env, degree)
+    if isinstance(e, ast.Compare) and len(e.ops) == 1:
+        a, b = _ev(e.left, env, degree), _ev(e.comparators[0], env, degree)
+        if a is UNK or b is UNK:
+            return UNK
+        op = e.ops[0]
+        try:
+            if isinstance(op, (ast.Eq, ast.Is)):
+                return a == b if isinstance(op, ast.Eq) else (a is b or (a is None) == (b is None) and a == b)
+            if isinstance(op, (ast.NotEq, ast.IsNot)):
+                return a != b
+            if isinstance(op, ast.Lt):
+                return a < b
+            if isinstance(op, ast.LtE):
+                return a <= b
+            if isinstance(op, ast.Gt):
+                return a > b
+            if isinstance(op, ast.GtE):
+                return a >= b
+            if isinstance(op, ast.In):
+                return a in b
+            if isinstance(op, ast.NotIn):
+                return a not in b
+        except TypeError:
+            return UNK
+        return UNK
+    if isinstance(e, ast.BoolOp):
+        vs = [_ev(v, env, degree) for v in e.values]
+        if isinstance(e.op, ast.And):
+            if any(v is not UNK and not v for v in vs):
+                return False
+            return UNK if any(v is UNK for v in vs) else True
+        if any(v is not UNK and v for v in vs):
+            return True
+        return UNK if any(v is UNK for v in vs) else False
+    if isinstance(e, (ast.Tuple, ast.List)):
+        vs = [_ev(v, env, degree) for v in e.elts]
+        return UNK if any(v is UNK for v in vs) else tuple(vs)
+    return UNK
+
+
+def _run_block(stmts, env, degree, stop):
+    """fold the assignments of a statement list into env, in order; True once the statement `stop` has been reached"""
+    for st in stmts:
+        if st is stop:
+            return True
+        if isinstance(st, ast.Assign):
+            v = _ev(st.value, env, degree)
+            for t in st.targets:
+                for nm in ast.walk(t):
+                    if isinstance(nm, ast.Name):
+                        env[nm.id] = v if isinstance(t, ast.Name) else UNK
+        elif isinstance(st, ast.AnnAssign) and isinstance(st.target, ast.Name):
+            env[st.target.id] = _ev(st.value, env, degree) if st.value is not None else UNK
+        elif isinstance(st, ast.AugAssign) and isinstance(st.target, ast.Name):
+            env[st.target.id] = _ev(ast.BinOp(left=ast.Name(id=st.target.id, ctx=ast.Load()), op=st.op, right=st.value), env, degree)
+        elif isinstance(st, ast.If):
+            t = _ev(st.test, env, degree)
+            if t is UNK:
+                e1, e2 = dict(env), dict(env)
+                r1 = _run_block(st.body, e1, degree, stop)
+                r2 = _run_block(st.orelse, e2, degree, stop)
+                for k in set(e1) | set(e2):
+                    a, b = e1.get(k, UNK), e2.get(k, UNK)
+                    env[k] = a if (a is not UNK and b is not UNK and type(a) is type(b) and a == b) else UNK
+                if r1 or r2:
+                    return True
+            elif _run_block(st.body if t else st.orelse, env, degree, stop):
+                return True
+        else:
+            for a in ast.walk(st):
+                if isinstance(a, ast.Name) and isinstance(a.ctx, ast.Store):
+                    env[a.id] = UNK
+                if isinstance(a, (ast.FunctionDef, ast.ClassDef)):
+                    env[a.name] = UNK
+            if any(x is stop for x in ast.walk(st)):
+                for k in list(env):
+                    env[k] = UNK  # the call sits in a loop / handler: nothing is folded
+                return True
+    return False
+
+
+ORDER_OF = {"gauss_legendre": lambda n: 2 * n}  # every other rule of the library: order n (C10 statement)
+
+
+def size_default(r: R, chk, quals: List[str], exact: List[str], rule="SIZE-DEFAULT", max_degree: int = 32):
+    """For every integrator that looks its rule up in a registry {method name: NodeSample function} and chooses `nnodes` itself
+    when the caller passes None: the statements before the node call are constant-folded for each registry key K and each degree
+    p = 0..max_degree (method = K, nnodes = None); the size n that reaches the call must satisfy the lower bound the callee
+    asserts, and — for the integrators in `exact`, whose integrand is the degree-p polynomial piece — order(K, n) >= p + 1."""
+    from .c10 import NS, funcrefs
+
+    ndec = 0
+    for q in quals:
+        ctx = r.root(q)
+        fi = ctx.fi
+        reg = None
+        for s in ast.walk(fi.node):
+            if isinstance(s, ast.Assign) and isinstance(s.value, ast.Dict) and isinstance(s.targets[0], ast.Name):
+                refs = {}
+                for k, v in zip(s.value.keys, s.value.values):
+                    if isinstance(k, ast.Constant) and isinstance(k.value, str):
+                        fr = funcrefs(ctx, v)
+                        if len(fr) == 1 and fr[0].startswith(NS):
+                            refs[k.value] = fr[0]
+                if refs and len(refs) == len(s.value.keys):
+                    reg = (s.targets[0].id, refs)
+                    break
+        if reg is None:
+            continue
+        # the call `f(size)` whose callee comes from the registry
+        call = None
+        for st in ast.walk(fi.node):
+            if isinstance(st, ast.stmt):
+                for c in ast.walk(st):
+                    if isinstance(c, ast.Call) and len(c.args) == 1 and set(funcrefs(ctx, c.func)) & set(reg[1].values()) and not isinstance(st, (ast.If, ast.For, ast.While, ast.FunctionDef)):
+                        call = call or (st, c)
+        if call is None:
+            continue
+        stop, c = call
+        size_param = next((p for p in fi.params if isinstance(c.args[0], ast.Name) and p == c.args[0].id), None)
+        mparam = next((p for p in fi.params if p == "method"), None)
+        if mparam is None:
+            continue
+        for K, callee in sorted(reg[1].items()):
+            cf = r.prog.funcs.get(callee)
+            lbs = _assert_lower_bounds(cf) if cf is not None else {}
+            pname = next((p for p in cf.params if p not in ("self", "cls")), None) if cf is not None else None
+            need = lbs.get(pname)
+            order = ORDER_OF.get(callee.split(".")[-1], lambda n: n)
+            bad_lb = bad_ord = None
+            undec = False
+            for p in range(max_degree + 1):
+                env = {a: UNK for a in fi.params}
+                env[mparam] = K
+                if size_param:
+                    env[size_param] = None
+                reached = _run_block(fi.node.body, env, p, stop)
+                n = _ev(c.args[0], env, p) if reached else UNK
+                if n is UNK or not isinstance(n, int):
+                    undec = True
+                    break
+                if need is not None and n < need and bad_lb is None:
+                    bad_lb = (p, n)
+                if q in exact and order(n) < p + 1 and bad_ord is None:
+                    bad_ord = (p, n)
+            if undec:
+                chk.note(f"{rule}: {q}: the default size for method {K!r} could not be folded to an integer: not decided")
+                continue
+            ndec += 1
+            if need is not None:
+                chk.ob("PRECOND-LB", f"{q}: method {K!r}: the default size satisfies the bound {callee.split('.')[-1]} asserts (>= {need}) for every degree 0..{max_degree}", bad_lb is None, loc=r.loc(ctx, c),
+                       detail="" if bad_lb is None else f"{q}: with method {K!r} and no `{size_param}`, a curve of degree {bad_lb[0]} reaches `{seg(c, 40)}` with {bad_lb[1]} node(s); {callee} asserts a size >= {need}: an AssertionError instead of an integral",
+                       func=q, construct=f"default size for {K} below {need}")
+            if q in exact:
+                chk.ob(rule, f"{q}: method {K!r}: the default size gives a rule of order >= degree + 1 for every degree 0..{max_degree}", bad_ord is None, loc=r.loc(ctx, c),
+                       detail="" if bad_ord is None else f"{q}: with method {K!r} and no `{size_param}`, a curve of degree {bad_ord[0]} is integrated with {bad_ord[1]} node(s): that rule is exact only for polynomials of degree < {order(bad_ord[1])}, so the integral of a polynomial spline is not the exact value sum_i P_i (u_(i+p+1) - u_i)/(p+1)",
+                       func=q, construct=f"default size for {K} of insufficient order")
+    return ndec
+
+
+# ------------------------------------------------------------------------------------------------
+# SEARCH-ALL: a search loop with a conditional body can go on to the next candidate
+def search_all(r: R, chk, entries: List[str], rule="SEARCH-ALL", floor: int = 1):
+    """every `for` loop (on the functions reachable from the entries) whose body tests something has a path from its body back
+    to its header: a loop that leaves through break / return on every path looks at the first candidate only — a pivot search that
+    stops at the first row, a scan that stops at the first element.  Loops whose body is unconditional (`for x in it: first = x; break`)
+    are a deliberate take-the-first and are not examined."""
+    from .divisions import reachable_functions
+
+    n = 0
+    for q in reachable_functions(r, entries):
+        ctx = r.A.roots.get(q)
+        if ctx is None:
+            continue
+        cfg = ctx.cfg
+        live = cfg.live_nodes()
+        for h in cfg.nodes:
+            if h.kind != "for" or h.id not in live or not isinstance(h.ast, ast.For):
+                continue
+            if not any(isinstance(x, (ast.If, ast.IfExp, ast.While, ast.Try)) for st in h.ast.body for x in ast.walk(st)):
+                continue
+            n += 1
+            inside = {id(x) for st in h.ast.body for x in ast.walk(st)}
+            again = any(p in live and id(cfg.nodes[p].ast) in inside for p in cfg.preds(h.id, exc=False))
+            chk.ob(rule, f"{q}: the loop `for {seg(h.ast.target, 20)} in {seg(h.ast.iter, 30)}` can reach its next element", again, loc=r.loc(ctx, h.ast),
+                   detail="" if again else f"{q}: every path through the body of `for {seg(h.ast.target, 20)} in {seg(h.ast.iter, 30)}` leaves the loop (break / return): only the first element is ever examined, so a search that has to skip unsuitable candidates (a zero pivot further down, a later span) gives up after the first one",
+                   func=q, construct=f"loop over {seg(h.ast.iter, 30)} never iterates twice")
+    chk.floor(rule, "conditional for-loops on the path", n, floor)
+    return n
